@@ -67,7 +67,7 @@ def c03(res, tier, a):
 
 def c04(res, tier, a):
     from checks import c04 as m
-    comps = _components(a, ["ops", "runtime"])
+    comps = _components(a, ["ops", "runtime", "lirwat"])
     with Scratch(slot()) as sc:
         ws.inject(sc)
         drv = ws.Driver(ws.build_driver(sc))
@@ -77,6 +77,9 @@ def c04(res, tier, a):
             cov.update(m.run_ops(res, tier, drv, k.constructed_operators()))
         if "runtime" in comps:
             cov.update(m.run_runtime(res, tier, sc, drv))
+        if "lirwat" in comps:
+            from checks import et
+            cov.update(et.run_lirwat(res, tier, sc, drv))
         res.coverage.update(cov)
         res.coverage["states"] = max(1, cov.get("operator_obligations", 0) + cov.get("runtime_obligations", 0))
         res.coverage["transitions"] = max(1, cov.get("operator_obligations", 0) + cov.get("runtime_obligations", 0))
